@@ -24,9 +24,17 @@ pub mod pathx {
     pub open spec fn may_touch(v: PathV) -> bool {
         confined(v) || exists|c: PathV| #[trigger] confined(c) && is_parent_of(v, c)
     }
+    // std: `join<P: AsRef<Path>>`; a string argument denotes Path::new(s) (AsRef<Path> for str/String), a path itself
+    pub trait AsPathArg: Sized { spec fn arg_v(&self) -> PathV; }
+    impl<'a> AsPathArg for &'a Path { open spec fn arg_v(&self) -> PathV { pview(*self) } }
+    impl AsPathArg for PathBuf { open spec fn arg_v(&self) -> PathV { pbview(self) } }
+    impl<'a> AsPathArg for &'a PathBuf { open spec fn arg_v(&self) -> PathV { pbview(*self) } }
+    impl<'a> AsPathArg for &'a str { open spec fn arg_v(&self) -> PathV { pview(super::path::spec_path_of((*self)@)) } }
+    impl<'a> AsPathArg for &'a String { open spec fn arg_v(&self) -> PathV { pview(super::path::spec_path_of((*self)@)) } }
+    impl AsPathArg for String { open spec fn arg_v(&self) -> PathV { pview(super::path::spec_path_of(self@)) } }
     impl Path {
         #[verifier::external_body]
-        pub fn join(&self, rel: &Path) -> (r: PathBuf) ensures pbview(&r) == joined(pview(self), pview(rel)) { unimplemented!() }
+        pub fn join<P: AsPathArg>(&self, rel: P) -> (r: PathBuf) ensures pbview(&r) == joined(pview(self), rel.arg_v()) { unimplemented!() }
         #[verifier::external_body]
         pub fn parent(&self) -> (r: Option<&Path>) ensures r matches Some(pp) ==> is_parent_of(pview(pp), pview(self)) { unimplemented!() }
         #[verifier::external_body]
